@@ -49,3 +49,34 @@ Theorem C16_kernel_text_round9_refuted :
                      = Return [Ar (A1 DFlt [c0; c1; c2]); Ar (A1 DFlt B)].
 Proof. exact round9_hypothesis_is_needed. Qed.
 Print Assumptions C16_kernel_text_round9_refuted.
+
+(* TOTAL correctness (Inv/Cross_correlogram_functotal.v). *)
+From Verif Require Inv.Cross_correlogram_functotal.
+Theorem C16_kernel_text_total : forall t1 t2 b w, 0 < b -> round9_exact b w ->
+  exists fuel, run fuel k__cross_correlogram (xcorr_args t1 t2 b w) = Return (xcorr_result t1 t2 b w).
+Proof. exact Cross_correlogram_functotal.k__cross_correlogram_total. Qed.
+Print Assumptions C16_kernel_text_total.
+
+(* _jitcontinuous_perievent (the kernel behind compute_perievent_continuous): its TEXT computes pc_kernel of Model/Perievent.v - for every
+   reference event the window (start, stop, first row) in the restricted sample array - together with the restriction indices, for raw
+   (unsorted allowed) arrays and every interval list with start <= end (needed: computed counter-example in the proof file); TOTAL
+   correctness.  The two calls to jitrestrict_with_count inside the kernel are discharged with that kernel's functional contract.
+   Proof in Inv/Jitcontinuous_perievent_func.v. *)
+From Verif Require Import Model.Restrict Model.Perievent.
+From Verif Require Import Inv.Jitcontinuous_perievent_func.
+Theorem C16_continuous_kernel_text_computes_model : forall ts tref ep n0 n1 fuel,
+  Forall (fun I => fst I <= snd I) ep ->
+  match run fuel k__jitcontinuous_perievent (pc_args ts tref ep n0 n1) with
+  | Return rs => rs = pc_result (restrict_idx ts ep) (pc_kernel ts tref ep n0 n1)
+  | OutOfFuel => True
+  | _ => False
+  end.
+Proof. exact k__jitcontinuous_perievent_computes_model. Qed.
+Print Assumptions C16_continuous_kernel_text_computes_model.
+
+Theorem C16_continuous_kernel_text_total : forall ts tref ep n0 n1,
+  Forall (fun I => fst I <= snd I) ep ->
+  exists fuel, run fuel k__jitcontinuous_perievent (pc_args ts tref ep n0 n1)
+               = Return (pc_result (restrict_idx ts ep) (pc_kernel ts tref ep n0 n1)).
+Proof. exact k__jitcontinuous_perievent_total. Qed.
+Print Assumptions C16_continuous_kernel_text_total.
